@@ -8,6 +8,11 @@ namespace Petl.Snapshot
 open Petl.Gen
 
 def expectedC18 : List (String × String) := [
+  ("file:comparison.py", "17971f67ee946013"),
+  ("file:config.py", "142bde514c82c29d"),
+  ("file:io/json.py", "9a87ae69473e052e"),
+  ("file:transform/sorts.py", "137f7e8a70e043fe"),
+  ("file:util/base.py", "771a68108eeb730d"),
   ("io.json.DictsGeneratorView", "814ca50f549ea08b"),
   ("transform.sorts.SortView", "39c82fa00f3f0fc2"),
   ("transform.sorts._NamedTempFileDeleteOnGC", "fe187490fb07ae00")
